@@ -275,12 +275,47 @@ def generate(rng, tier, seed):
         for fn, blk, rest in (("pinblock.decode_pinblock_iso_0", e0, (pan,)), ("pinblock.decode_pinblock_iso_2", e2, ()),
                               ("pinblock.decode_pinblock_iso_3", e3, (pan,)), ("pinblock.decode_pin_field_iso_4", f4, ()),
                               ("pinblock.decipher_pinblock_iso_4", e4, (pan,))):
-            for bad in (blk + blk, blk + bytes(len(blk)), blk + rb(rng, len(blk)), blk * 3, bytes(len(blk)) + blk, blk + blk[:1], blk[:-1]):
+            for bad in (blk + blk, blk + bytes(len(blk)), blk + rb(rng, len(blk)), blk * 3, bytes(len(blk)) + blk, blk + blk[:1], blk[:-1],
+                        blk[:len(blk) // 2], blk + b"\xaa" * len(blk), blk + b"\xff" * len(blk), blk + b"\xaa" * (len(blk) // 2)):
                 c = Case(fn.split(".")[-1] + ":authentic-plus-surplus", {"len": len(bad)})
                 args = ((key, bad) + rest) if fn.endswith("decipher_pinblock_iso_4") else ((bad,) + rest)
                 r = c.call(fn, *args)
                 if r.ok or r.err != "value":
                     c.fail(f"a block of {len(bad)} bytes (an authentic block plus surplus) was not rejected with ValueError: {'returned ' + repr(r.value) if r.ok else r.err}")
+                yield c
+    # blocks of the right size that are nearly well-formed: decoded under another PAN, one PIN digit replaced by A-F, one fill nibble
+    # replaced by a digit (format 3), by 0-E (formats 0 / 2), the control or length nibble off by one - rejected with ValueError and
+    # nothing else, in every interpreter mode (each rejection has its own raise site and message)
+    for _ in range(4 * reps):
+        pin, pan = digits(rng, rng.randrange(4, 12)), digits(rng, 16)
+        pan2 = pan[:3] + "".join(str(9 - int(ch)) for ch in pan[3:15]) + pan[15:]
+        blocks3 = {"pinblock.decode_pinblock_iso_0": (psec.pinblock.encode_pinblock_iso_0(pin, pan), (pan,)),
+                   "pinblock.decode_pinblock_iso_2": (psec.pinblock.encode_pinblock_iso_2(pin), ()),
+                   "pinblock.decode_pinblock_iso_3": (psec.pinblock.encode_pinblock_iso_3(pin, pan), (pan,)),
+                   "pinblock.decode_pin_field_iso_4": (psec.pinblock.encode_pin_field_iso_4(pin), ())}
+        for fn, (blk, rest) in blocks3.items():
+            muts = []
+            hexs = blk.hex()
+            for pos, repl in ((2 + len(pin) - 1, "c"), (2, "a"), (2 + len(pin), "5"), (2 + len(pin), "0"), (15, "9"), (0, "f"), (1, "3"), (1, "d")):
+                if rest:
+                    # formats 0 / 3: the nibble is XORed with the PAN block; flip it so that the *clear* nibble becomes `repl`
+                    clear = bytes(x ^ y for x, y in zip(blk, bytes.fromhex("0000" + pan[-13:-1])))
+                    ch = clear.hex()
+                    ch2 = ch[:pos] + repl + ch[pos + 1:]
+                    muts.append(bytes(x ^ y for x, y in zip(bytes.fromhex(ch2), bytes.fromhex("0000" + pan[-13:-1]))))
+                else:
+                    muts.append(bytes.fromhex(hexs[:pos] + repl + hexs[pos + 1:]))
+            for m_ in muts:
+                c = Case(fn.split(".")[-1] + ":nearly-well-formed", {})
+                r = c.call(fn, m_, *rest)
+                if not r.ok and r.err != "value":
+                    c.fail(f"a nearly well-formed block escaped as {r.err}")
+                yield c
+            if rest:
+                c = Case(fn.split(".")[-1] + ":other-pan", {})
+                r = c.call(fn, blk, pan2)
+                if not r.ok and r.err != "value":
+                    c.fail(f"a block decoded under another PAN escaped as {r.err}")
                 yield c
     # character-class helpers over the whole low range and a sample of high code points
     pts = list(range(0, 0x300)) + [0x660, 0x663, 0x966, 0xFF10, 0xFF21, 0x1D7D9, 0xD800, 0xDFFF, 0x10FFFF, 0x2460, 0x212A, 0x17F, 0x130, 0x131]
